@@ -354,6 +354,9 @@ fn iofault_case(run_seed: u64, tier: Tier) -> Case {
     }
     ops.push(Op::CheckAll);
     plan.ops = ops;
+    if rng.fork("boundary").chance(1, 8) {
+        crate::gen::boundary_prefix(&mut rng.fork("boundary-shape"), &mut plan);
+    }
     // 40% of the plans end with 2-3 concurrent writers on disjoint key sets (group commits under
     // faults: the leader's error must reach its followers and vice versa)
     let mut crng = rng.fork("clients");
@@ -532,6 +535,9 @@ fn crash_case(run_seed: u64, tier: Tier, torn: bool) -> Case {
     let size = if tier == Tier::Quick { BASE_QUICK } else { BASE_THOROUGH };
     let plan = gen_hist(&mut rng, Profile::Base, size);
     let mut plan = plan;
+    if rng.fork("boundary").chance(1, 8) {
+        crate::gen::boundary_prefix(&mut rng.fork("boundary-shape"), &mut plan);
+    }
     let mut crng = rng.fork("clients");
     if !torn && crng.chance(1, 4) {
         // 2-3 concurrent writers on disjoint key sets after the single-client part
